@@ -24,6 +24,7 @@ import (
 	"go/token"
 	"os"
 	"path/filepath"
+	"regexp"
 	"sort"
 	"strconv"
 	"strings"
@@ -371,7 +372,10 @@ func instrumentTree(root, dst string, points bool) (*instrResult, error) {
 		if err := os.MkdirAll(filepath.Dir(out), 0o755); err != nil {
 			return nil, err
 		}
-		if err := os.WriteFile(out, buf.Bytes(), 0o644); err != nil {
+		// //line directives after every point: stack traces, race reports and
+		// panics then name the file and line of the ORIGINAL source
+		text := withLineDirectives(buf.Bytes(), in.sites, filepath.Join(root, rel))
+		if err := os.WriteFile(out, text, 0o644); err != nil {
 			return nil, err
 		}
 		res.Files = append(res.Files, rel)
@@ -385,4 +389,32 @@ func instrumentTree(root, dst string, points bool) (*instrResult, error) {
 	}
 	sort.Strings(res.PkgDirs)
 	return res, nil
+}
+
+var pointLine = regexp.MustCompile(`^\s*vsim__\.Point\((\d+)\)\s*$`)
+
+func withLineDirectives(src []byte, sites []string, origPath string) []byte {
+	var out bytes.Buffer
+	pending := ""
+	for _, l := range strings.SplitAfter(string(src), "\n") {
+		if pending != "" && strings.TrimSpace(l) != "" {
+			// directly in front of the statement (the printer may have put
+			// blank lines between the point and the statement)
+			out.WriteString(pending)
+			pending = ""
+		}
+		out.WriteString(l)
+		m := pointLine.FindStringSubmatch(strings.TrimRight(l, "\n"))
+		if m == nil {
+			continue
+		}
+		id, err := strconv.Atoi(m[1])
+		if err != nil || id >= len(sites) {
+			continue
+		}
+		if i := strings.LastIndexByte(sites[id], ':'); i >= 0 {
+			pending = fmt.Sprintf("//line %s:%s\n", origPath, sites[id][i+1:])
+		}
+	}
+	return out.Bytes()
 }
